@@ -33,6 +33,7 @@ GATES = {
     "list1_dynamic": "one-element constant list with a dynamic index assigned to a variable leaves the register unset",
     "forlist_nested": "for-over-list inside the body of another for-over-list: inner jal overwrites ra",
     "forlist_call": "call of a non-inlined function inside a for-over-list body: jal overwrites the body's return address",
+    "tail_call_other_calls": "tail_call_optimization on a function whose last statement is a call and that also contains other calls or returns: ra is not saved / the end label has no `j ra`",
     "const_test": "if/while test that folds to a constant while its body contains break",
 }
 
@@ -517,6 +518,12 @@ class Gen:
         if has_ret:
             rv = self.value_for_stmt(sc, 1) if self.cfg.call_heavy else self.expr(sc, 1)
             body.append(f"    return {rv}")
+        if not self.gate("tail_call_other_calls") and body:
+            last = body[-1]
+            if re.match(r"^    [A-Za-z_][A-Za-z0-9_]*\(.*\)$", last) and not last.strip().startswith(("yield_", "sleep")):
+                others = [l for l in body[:-1] if re.search(r"\b(f|calc|update|get_val|step)[0-9]+\(", l) or "return" in l]
+                if others:
+                    body.append("    pass")
         out += body
         self.cur_func = None
         self.funcs.append((name, nargs, has_ret))
